@@ -192,7 +192,22 @@ impl Property for C10 {
                     }
                 }
             }
-            let class = if tj { "|t-junction" } else { "" };
+            // second input class: the boundary passes twice through one vertex - two members of the multipolygon touch
+            // there, or a hole touches its shell / another hole (a pinch): the boundary lines do not determine the rings
+            let mut seen: std::collections::BTreeMap<C, (usize, usize)> = std::collections::BTreeMap::new();
+            let (mut members_touch, mut ring_pinch) = (false, false);
+            for (pi, po) in polys.iter().enumerate() {
+                for r in po.rings() {
+                    for v in &r[..r.len().saturating_sub(1)] {
+                        match seen.get(v) {
+                            Some((qi, _)) if *qi != pi => members_touch = true,
+                            Some(_) => ring_pinch = true,
+                            None => { seen.insert(*v, (pi, 0)); }
+                        }
+                    }
+                }
+            }
+            let class = if tj { "|t-junction" } else if members_touch { "|members-touch-at-a-vertex" } else if ring_pinch { "|ring-pinch" } else { "" };
             if tj {
                 obs.label("non-conforming-triangulation");
             }
